@@ -130,7 +130,13 @@ impl<'a> Ctx<'a> {
 const IDENTS: &[&str] = &["x", "f", "it", "c", "t", "s", "a", "u", "fl", "st", "b", "an", "g", "m", "aa", "tt", "h", "fi", "ss", "bi", "nope", "nv", "e0", "en", "um", "ua", "tl", "sl", "fl2", "*um", "nv()", "e0[0]", "[][x]", "([]~)().1"];
 const TYPES: &[&str] = &["int", "float", "string", "bool", "any", "()", "[int]", "[any]", "(int, string)", "int|string", "mut int", "()->(bool, int)", "(int)->int", "struct{a: int}", "!", "[]", "mut (int|string)", "(int|float, bool)"];
 const BINOPS: &[&str] = &["+", "-", "*", "/", "%", "**", "<<", ">>", "&", "|", "^", "==", "!=", "<", "<=", ">", ">=", "&&", "||", "=", "+=", "-=", "*=", "/=", "%=", "**=", "<<=", ">>=", "&=", "|=", "^=", "@", "?", "\\"];
-const POSTFIX: &[&str] = &["$+", "$*", "$&&", "$||", "$&", "$|", "$]", "~", ".0", ".1", ".2", ".3", ".a", ".b", "()", "(1)", "(x)", "(x, 2)", "[0]", "[x]", "[-1]", "[1:]", "[:2]", "[::2]", "[1:2:1]", "[:]", "[::]", "? int", "? string", "? [int]", "? !"];
+const POSTFIX: &[&str] = &[
+    "$+", "$*", "$&&", "$||", "$&", "$|", "$]", "~", ".0", ".1", ".2", ".3", ".a", ".b", "()", "(1)", "(x)", "(x, 2)", "[0]", "[x]", "[-1]", "[1:]", "[:2]", "[::2]", "[1:2:1]", "[:]", "[::]",
+    "? int", "? string", "? [int]", "? !",
+    // every spelling of an int literal where one is read: other radixes, separators, more digits than an int holds
+    ".0x1", ".0b1", ".0o1", ".0_1", ".1_", ".00", ".99999999999999999999999999", ".18446744073709551616", ".0xFFFFFFFFFFFFFFFFFF", "[0x1]", "[0b1]", "[0_0]", "[99999999999999999999999999]",
+    "[0x1:0b10:0o1]", "[:99999999999999999999999999]", "[::0x0]", "(0x1)", "(99999999999999999999999999)",
+];
 
 pub fn wild_expr(rng: &mut Rng, depth: usize) -> String {
     if depth == 0 || rng.chance(1, 4) {
